@@ -439,7 +439,11 @@ class Schema(ResolverMap):
                 % (object_type.__class__.__name__, typename)
             )
 
-        if object_type.default_resolver and not allow_override:
+        if (
+            object_type.default_resolver
+            and not allow_override
+            and object_type.default_resolver is not resolver
+        ):
             raise ValueError(
                 'Type "%s" already has a default resolver.' % (typename,)
             )
